@@ -607,6 +607,7 @@ func (ex *Exec) enterLoop(fr *Frame, li *loopInfo, st *State) *State {
 	if lc != nil && ex.discover == nil {
 		for _, inv := range lc.Invariants {
 			env := ex.specEnv(fr, st, li.minPos)
+			env.loopEntry = st
 			c := ex.evalSpecBool(env, inv.Expr)
 			ex.obligeSpec(st, "inv-entry", loopName+":"+inv.Label, c, inv, nil)
 		}
